@@ -253,6 +253,8 @@ class Interp:
                 return m(self, fn.__self__, *args, **kwargs)
         if m is not None:
             return m(self, *args, **kwargs)
+        if (getattr(fn, "__module__", None) or "").split(".")[0] in ("pyvc", "contracts"):
+            return fn(*args, **kwargs)  # theory / contract code: runs natively on symbolic values
         if inspect.ismethod(fn):  # live bound method (e.g. classmethod bound to a class)
             return self.call(fn.__func__, [fn.__self__] + list(args), kwargs)
         if isinstance(fn, type):
